@@ -22,6 +22,7 @@ RULE = ('generated layer DAGs (<= 6 nodes, class and instance layers, adversaria
         'once. One spec in five is a generated source tree run sequentially, listed and with -j N '
         'layer children (header sequence of the relayed output: same order, each layer once). distinct = digest of DAG shape + names + owners; non-trivial = >= 3 layers own '
         'tests. The all-DAGs/all-namings half of the quantifier is only sampled')
+RULE += (' World specs also with a child that dies silently inside its layer and with a worker thread that cannot be started (each layer still at most once, in order).')
 RULE += (' ' + 'Later additions: world specs with children whose report never arrives (their output must stay in place).')
 REAL_VS_STUB = {
     'real': 'Runner with found_suites, find_tests/tests_from_suite, Filter, ordered_layers, '
@@ -65,9 +66,33 @@ def gen_world_spec(seed, rng):
             if srng.random() < 0.7:
                 plan.append({'site': 'channel', 'ident': lf, 'a': 'truncate_report',
                              'at': srng.choice([0, 0, 3, 12])})
+    knobs = {'pipe_capacity': rng.choice([64, 4096, 65536])}
+    if seed % 7 == 2:
+        # a child that dies silently somewhere in its layer (killed, os._exit): whatever the
+        # parent does about it, no layer is run twice and nothing runs out of order
+        srng = random.Random(seed ^ 0xD1E)
+        m = W.Model(world)
+        hooks = [(s_, L['name']) for L in world['layers'] for s_ in ('setUp', 'tearDown')
+                 if m.has_hook(L['name'], s_)]
+        if hooks:
+            h, name = srng.choice(hooks)
+            plan.append({'site': 'layer.' + h, 'ident': name, 'a': 'die',
+                         'how': srng.choice(['kill', 'exit0', 'exit3']), 'where': 'child'})
+    if seed % 7 == 5:
+        # the worker thread of one layer cannot be started (out of threads): the run may die of
+        # it, but no layer may overtake another one because of it
+        knobs['main_thread_start_fail'] = 1 + (seed // 7) % 4
+        if (seed // 7) % 2:
+            # ... in a sequential run whose first layer cannot be torn down: all the others are
+            # resumed one after the other, in order
+            m = W.Model(world)
+            plan[:] = [e for e in plan if e.get('exc') != 'NotImplementedError']
+            for L in world['layers']:
+                if m.has_hook(L['name'], 'tearDown'):
+                    plan.append({'site': 'layer.tearDown', 'ident': L['name'], 'a': 'raise',
+                                 'exc': 'NotImplementedError', 'where': 'parent'})
     return {'property': ID, 'seed': seed, 'kind': 'world', 'world': world, 'plan': plan,
-            'opt': opt, 'modes': modes,
-            'knobs': {'pipe_capacity': rng.choice([64, 4096, 65536])}, 'sched': {'prng': seed}}
+            'opt': opt, 'modes': modes, 'knobs': knobs, 'sched': {'prng': seed}}
 
 
 def run_world(spec, ctx):
@@ -82,10 +107,18 @@ def run_world(spec, ctx):
         opt = dict(spec['opt'], **mode)
         res = core.execute(spec, W.argv(opt, src), label=repr(sorted(mode)))
         results.append(res)
+        if res.raised and 'main_thread_start_fail' in res.fired:
+            continue       # (the run died of the injected fault: nothing ran out of order)
         if res.raised or res.hang:
             viols.append(C.viol('C10/run-aborted/%s' % _ws.frames_sig(res.raised),
                                 repr(res.raised or res.hang)))
             continue
+        spawned = [c.get('layer') for c in res.children]
+        if len(set(spawned)) != len(spawned):
+            # (a second start is not always visible in the headers: the output of a child that
+            # died may end in the middle of a line)
+            viols.append(C.viol('C10/layer-run-twice/child-started-twice',
+                                'children were started for %r' % (spawned,)))
         if mode.get('list'):
             seq = [l for l, _ in C.parse_listing(res.text) if not l.endswith('.EmptyLayer')]
         else:
@@ -95,8 +128,17 @@ def run_world(spec, ctx):
         ref = seqs[0][1]
         for mode, seq in seqs:
             tag = 'children' if mode.get('j') else ('list' if mode.get('list') else 'sequential')
+            lossy = any(e['a'] == 'die' for e in spec['plan']) or \
+                bool(spec['knobs'].get('main_thread_start_fail'))
             if len(set(seq)) != len(seq):
                 viols.append(C.viol('C10/layer-run-twice/' + tag, repr(seq)))
+            elif lossy and tag == 'children':
+                # a layer whose child died before its header (or never started) may be missing
+                # here; what is there is in order
+                it = iter(ref)
+                if not all(x in it for x in seq):
+                    viols.append(C.viol('C10/order-depends-on/mode-children-after-fault',
+                                        'children give %r, sequential gives %r' % (seq, ref)))
             elif seq != ref:
                 viols.append(C.viol('C10/order-depends-on/mode-' + tag,
                                     '%s gives %r, sequential gives %r' % (tag, seq, ref)))
@@ -110,7 +152,9 @@ def run_world(spec, ctx):
                     viols.append(C.viol('C10/layer-before-its-base',
                                         '%s ran before its base %s: %r' % (b, a, ref)))
         want = set(m.select({}))
-        if set(ref) != want:
+        lossy0 = any(e['a'] == 'die' for e in spec['plan']) or \
+            bool(spec['knobs'].get('main_thread_start_fail'))
+        if (not set(ref) <= want) if lossy0 else (set(ref) != want):
             viols.append(C.viol('C10/layers-missing-or-extra', 'ran %r, owners %r'
                                 % (ref, sorted(want))))
     for r in results:
